@@ -150,5 +150,12 @@ fixed("C14", "7c78d18", ["c14:transferred-oneshot:close-callback-overlaps-messag
 fixed("C18", "add344e", ["c18:core:tcp:stop-hang", "c18:core:unix:stop-hang", "c18:core:tcp:shutdown-hang", "c18:core:unix:shutdown-hang", "c18:http:mixed:shutdown-hang"],
       "Close of an nbio.Conn before / while it is handed to AddConn (nbhttp's shutdown does this to connections that are just being added): no close notification, but the open is still announced and counted; Stop waits forever (history element close_vs_add_conn; first seen as a rare c18:http:mixed:shutdown-hang)")
 
+fixed("C18", "54f4194", ["crash:panic: sync: WaitGroup is reused before previous Wait has returned"],
+      "Engine.AddConn racing Stop: the open handler raises the wait-group counter from zero while Stop is already waiting on it; the runtime panics (history elements add_conn_during_stop race / burst; about one quick run in three)")
+fixed("C13", "49b28d9", ["c13:e2e:%s:%s:connection-not-failed" % (p, sc) for p in ("blocking-parser", "mixed") for sc in ("rsv2", "rsv3", "reserved-opcode-3", "reserved-opcode-11", "fragmented-ping", "ping-126", "continuation-without-start", "text-inside-fragmented", "length-top-bit")],
+      "IOModBlocking / blocking part of IOModMixed, plain connections: readConnBlocking ignores the error returned by Parse; after a protocol violation the connection stays open and later frames are handled (phase e2e)")
+fixed("C13", "08408ec", ["c13:e2e:transferred-tls:%s:connection-not-failed" % sc for sc in ("rsv2", "rsv3", "reserved-opcode-3", "reserved-opcode-11", "fragmented-ping", "ping-126", "continuation-without-start", "text-inside-fragmented", "length-top-bit")],
+      "TLS connection transferred to the poller by UpgradeAndTransferConnToPoller: the data handler tests the wrong error variable, a Parse error does not fail the connection (phase e2e)")
+
 json.dump(F, open("/verif/known_findings.json", "w"), indent=1)
 print("wrote %d entries (%d known)" % (len(F), sum(1 for f in F if f["status"] == "known")))
